@@ -18,6 +18,7 @@ RULE = (
     "(B) metamorphic relation on models without per-resource absences and without component-bound automatic "
     "tasks (and flag off or no automatic task), both runs ending FINISHED_SUCCESS: "
     "dump(simulate(absence=L); remove_absence_time_list()) == dump(simulate(absence=[])), all logs of all objects, "
+    "Relation B is also evaluated for backward_simulate (one model in four): its mirrored result and mirrored absence list, after remove_absence_time_list(), must equal the backward run without absence. One spec in three has lived before (warm start): another model edited in place into this one or swapped into the old project object, or the model's own run cut short by max_time and then continued with one of the unequal initialize-flag combinations (state carried over and logs restarted, or state reset and logs appended), or a first run that does not initialize the logs. "
     "time, costs, status. Non-trivial = an absence step strictly inside the run at which some task was live "
     "WORKING (A), or such a model on which relation B was evaluated; distinct by canonical spec hash."
 )
@@ -33,7 +34,7 @@ LEVEL_TEXT = (
 )
 LEVEL_NOTE = "Trusts the step observer (live WORKING vs displayed READY on absence steps) and the dump of all logs."
 
-CFG_A = gen.Cfg(warm=2, facilities=True, max_time=[40, 80], float_mode=8, abs_max=14, abs_p=2, abs_size=6)
+CFG_A = gen.Cfg(warm_modes=["morph", "graft", "append", "nolog"], warm=2, facilities=True, max_time=[40, 80], float_mode=8, abs_max=14, abs_p=2, abs_size=6)
 CFG_B = gen.Cfg(
     servable=3,
     rules=[0, 1, 2, 3, 4, 4, 4, 4, 5, 6, 7, 8],  # FIFO counts log entries: the rule most exposed to absence steps
@@ -52,6 +53,8 @@ def _spec_b(draw, cfg):
     if not spec["opts"]["abs"]:
         spec["opts"]["abs"] = draw(st.lists(st.integers(0, cfg.abs_max), unique=True, min_size=1, max_size=6))
     spec["mode"] = "B"
+    if draw(st.integers(0, 3)) == 0 and not any(c.get("parent") is not None for c in spec["comps"]):
+        spec["bw"] = True
     return spec
 
 
@@ -98,15 +101,24 @@ def check(spec):
             res.cls("relation_B_skipped_failure_run")
             return res
         opts0 = dict(spec["opts"], abs=[])
+        # one model in four: the same relation for backward_simulate (its result is mirrored into forward time, and
+        # so is the absence list the result carries, which remove_absence_time_list() then reads)
+        run = S.backward_simulate if spec.get("bw") else S.simulate
+        res.cls("relation_B_backward", bool(spec.get("bw")))
         h2 = S.build(spec)
-        S.simulate(h2.project, opts0)
+        run(h2.project, opts0)
         if int(h2.project.status) != 1:
             res.cls("relation_B_skipped_failure_run")
             return res
         # fresh run with absence (the observed one would do, but keep the relation self-contained)
         h1 = S.build(spec)
-        S.simulate(h1.project, spec["opts"])
-        n_inside = sum(1 for a in spec["opts"]["abs"] if a < h1.project.time)
+        run(h1.project, spec["opts"])
+        n_run = len(h1.project.cost_list)
+        n_inside = sum(1 for a in spec["opts"]["abs"] if a < n_run)
+        listed = list(h1.project.absence_time_list)
+        for a in listed:
+            if 0 <= a < n_run and any(int(r.state_record_list[a]) != S.R_ABSENCE for r in list(h1.workers) + list(h1.facs)):
+                res.fail("C10.result_absence_list", "step %d is listed as an absence step of the result but a resource is not logged ABSENCE there" % a, sig="bw_state" if spec.get("bw") else "fw_state")
         h1.project.remove_absence_time_list()
         d1, d2 = S.dump(h1.project), S.dump(h2.project)
         res.cls("relation_B_evaluated")
